@@ -35,6 +35,8 @@ pub struct Profile {
     pub p_modulo: f64,
     pub p_key_via_agg: f64,
     pub p_fn_exprs: f64,
+    pub p_math_exprs: f64,
+    pub p_where_col_cmp: f64,
     pub p_inner_where: f64,
     pub p_join_of_subqueries: f64,
     pub p_on_or: f64,
@@ -73,6 +75,8 @@ impl Profile {
             p_modulo: 0.03,
             p_key_via_agg: 0.04,
             p_fn_exprs: 0.1,
+            p_math_exprs: 0.06,
+            p_where_col_cmp: 0.05,
             p_inner_where: 0.5,
             p_join_of_subqueries: 0.0,
             p_on_or: 0.0,
@@ -87,7 +91,7 @@ impl Profile {
         match prop {
             "C03" => Profile { p_on_or: 0.04, p_cross: 0.04, p_outer_kinds: 0.05, p_multi_dp: 0.06, p_shared_cte: 0.05, p_nested_group: 0.03, ..base },
             "C01" => Profile { p_nested_by_id: 0.04, p_on_or: 0.06, p_cross: 0.06, p_outer_kinds: 0.06, p_shared_cte: 0.03, p_nested_group: 0.05, ..base },
-            "C09" => Profile { p_count_of_unique: 0.6, p_fn_exprs: 0.25, p_modulo: 0.12, p_alias_shadow: 0.4, public_keys_only: true, benign_data: true, p_distinct: 0.12, p_row_privacy: 0.15, p_grouped: 0.65, ..base },
+            "C09" => Profile { p_where_col_cmp: 0.2, p_math_exprs: 0.2, p_count_of_unique: 0.6, p_fn_exprs: 0.25, p_modulo: 0.12, p_alias_shadow: 0.4, public_keys_only: true, benign_data: true, p_distinct: 0.12, p_row_privacy: 0.15, p_grouped: 0.65, ..base },
             "C04" => Profile { p_unsupported_agg: 0.08, p_key_via_agg: 0.25, p_nested_group: 0.08, p_nested: 0.0, need_private_key: true, p_grouped: 1.0, p_outer: 0.0, p_distinct: 0.05, ..base },
             "C16" => Profile { benign_data: true, full_catalogue: true, p_public_table: 1.0, p_synthetic: 0.3, ..base },
             "C02" => Profile { p_pu_without_root: 0.08, p_extra_select: 0.05, p_join_of_subqueries: 0.05, p_on_or: 0.04, p_unsupported_agg: 0.08, p_cross: 0.04, p_outer_kinds: 0.05, p_multi_dp: 0.04, p_nested_group: 0.03, p_shared_cte: 0.08, p_plain: 0.25, p_synthetic: 0.4, p_public_table: 0.5, p_outer: 0.2, ..base },
@@ -1051,6 +1055,64 @@ pub fn generate(seed: u64, run: u64, prop: &str) -> Generated {
             }
         }
     }
+    // a comparison between two columns (own stream): filters narrow the types of both operands,
+    // and a narrowed finite value set becomes the list of public groups
+    let mut rcc = Rng::stream(seed, run, "where_col_cmp");
+    if rcc.chance(profile.p_where_col_cmp) {
+        let fam = |c: &ColSpec| -> u8 {
+            match &c.ty {
+                ColType::IntRange { .. } | ColType::IntValues(_) => 1,
+                ColType::FloatRange { .. } | ColType::FloatValues(_) => 2,
+                ColType::TextValues(_) => 3,
+                _ => 0,
+            }
+        };
+        let cand: Vec<&(String, ColSpec)> = cols.iter().filter(|(q, c)| !is_id(q) && fam(c) != 0).collect();
+        // prefer a left operand with a declared finite value set
+        let mut lefts: Vec<&(String, ColSpec)> = cand.iter().filter(|(_, c)| matches!(c.ty, ColType::IntValues(_) | ColType::TextValues(_))).cloned().collect();
+        // ... and, among those, one the query groups by
+        let keyed: Vec<&(String, ColSpec)> = lefts.iter().filter(|(q, _)| keys.iter().any(|k| &k.expr == q && k.public_set.is_some())).cloned().collect();
+        if !keyed.is_empty() && rcc.chance(0.75) {
+            lefts = keyed;
+        } else if lefts.is_empty() || rcc.chance(0.3) {
+            lefts = cand.clone();
+        }
+        if !lefts.is_empty() {
+            let (ql, cl) = lefts[rcc.usize(lefts.len())];
+            let rights: Vec<&(String, ColSpec)> = cand.iter().filter(|(q, c)| q != ql && fam(c) == fam(cl)).cloned().collect();
+            // ... compared with another column of few values, so that the value sets overlap
+            let small: Vec<&(String, ColSpec)> = rights.iter().filter(|(_, c)| match &c.ty {
+                ColType::IntValues(_) | ColType::TextValues(_) => true,
+                ColType::IntRange { lo, hi } => hi - lo <= 8,
+                _ => false,
+            }).cloned().collect();
+            let rights = if !small.is_empty() && rcc.chance(0.8) { small } else { rights };
+            // ... or with a two-valued expression over the left operand's own value set
+            let own: Vec<String> = match &cl.ty {
+                ColType::IntValues(v) if v.len() >= 3 => v.iter().map(|x| x.to_string()).collect(),
+                ColType::TextValues(v) if v.len() >= 3 => v.iter().map(|x| format!("'{}'", x)).collect(),
+                _ => vec![],
+            };
+            let cond_col = numeric.iter().find(|(q2, c2)| q2 != ql && matches!(c2.ty, ColType::IntRange { .. } | ColType::FloatRange { .. }));
+            if let (true, Some((qc, cc)), true) = (!own.is_empty(), cond_col, rcc.chance(0.5)) {
+                let mid = match &cc.ty {
+                    ColType::IntRange { lo, hi } => format!("{}", (lo + hi) / 2),
+                    ColType::FloatRange { lo, hi } => format!("{:?}", ((lo + hi) / 2.0 * 8.0).round() / 8.0 + 0.0625),
+                    _ => unreachable!(),
+                };
+                let i = rcc.usize(own.len());
+                let j = (i + 1 + rcc.usize(own.len() - 1)) % own.len();
+                where_.push(format!("{} <> CASE WHEN {} > {} THEN {} ELSE {} END", ql, qc, mid, own[i], own[j]));
+                tags.push("where_col_cmp:ne_case".into());
+            } else if !rights.is_empty() {
+                let (qr, _) = rights[rcc.usize(rights.len())];
+                let op = if fam(cl) == 3 { *rcc.pick(&["<>", "<>", "="]) } else { *rcc.pick(&["<>", "<>", "<", ">=", "="]) };
+                where_.push(format!("{} {} {}", ql, op, qr));
+                tags.push(format!("where_col_cmp:{}", match op { "<>" => "ne", "=" => "eq", "<" => "lt", _ => "ge" }));
+            }
+        }
+    }
+
     // a WHERE conjunct on a key column may narrow it to a public set in the compiler's reading
     for k in keys.iter_mut() {
         if !k.expr.starts_with("CASE") && where_.iter().any(|w| w.contains(k.expr.as_str())) {
@@ -1336,6 +1398,87 @@ pub fn generate(seed: u64, run: u64, prop: &str) -> Generated {
             used.sort();
             used.dedup();
             tags.push(format!("fn:{}", used.join("+")));
+        }
+    }
+    // mathematical functions and two-operand arithmetic inside SUM / AVG (own stream): sqrt, exp,
+    // ln, logarithms of every spelling, powers, sign, products and differences - each one is
+    // re-typed by the compiler, and the propagated range becomes the clamp bound
+    let mut rme = Rng::stream(seed, run, "math_exprs");
+    if rme.chance(profile.p_math_exprs) && query.cte.is_none() {
+        let spec_of = |e: &str| -> Option<ColSpec> { cols.iter().find(|(q, _)| q == e).map(|(_, c)| c.clone()) };
+        let range_of = |c: &ColSpec| -> Option<(f64, f64, bool)> {
+            match &c.ty {
+                ColType::IntRange { lo, hi } => Some((*lo as f64, *hi as f64, true)),
+                ColType::FloatRange { lo, hi } => Some((*lo, *hi, false)),
+                ColType::IntValues(v) => Some((*v.iter().min().unwrap() as f64, *v.iter().max().unwrap() as f64, true)),
+                _ => None,
+            }
+        };
+        let mut used = vec![];
+        for a in query.aggs.iter_mut() {
+            if !matches!(a.f, AggFn::Sum | AggFn::Avg) || a.distinct || a.arg.contains('(') || a.arg.contains(' ') || !rme.chance(0.7) {
+                continue;
+            }
+            let Some(c) = spec_of(&a.arg) else { continue };
+            let Some((lo, hi, is_int)) = range_of(&c) else { continue };
+            let q = a.arg.clone();
+            let m = lo.abs().max(hi.abs()).max(1.0);
+            if m > 1.0e6 {
+                continue;
+            }
+            // a power of two above the magnitude: `q * inv` lies in [-1, 1] and is exact
+            let mut p2 = 1.0f64;
+            while p2 < m {
+                p2 *= 2.0;
+            }
+            let inv = format!("{:?}", 1.0 / p2);
+            // shift making the operand of a logarithm at least 2 (non-integral for float columns,
+            // integral for integer ones, so that the literal keeps the column's own type)
+            let shift = if is_int { format!("{}", (2.0 - lo) as i64) } else { format!("{:?}", 2.25 - lo.floor()) };
+            let top = hi - lo + 3.25;
+            let other = numeric.iter().find(|(q2, c2)| *q2 != q && range_of(c2).map_or(false, |r| r.0.abs().max(r.1.abs()) <= 1.0e6));
+            let positive = numeric.iter().find(|(q2, c2)| *q2 != q && range_of(c2).map_or(false, |r| r.0 > 0.0 && r.1 <= 1.0e6));
+            let (expr, scale, name) = match rme.below(16) {
+                14 | 15 => match positive {
+                    // a ratio of two columns; the denominator's declared range excludes zero
+                    Some((q2, c2)) => (format!("{} / {}", q, q2), m / range_of(c2).unwrap().0.min(1.0), if c2.optional { "ratio_nullable_den" } else { "ratio" }),
+                    None => continue,
+                },
+                0 if lo >= 0.0 => (format!("sqrt({})", q), m.sqrt(), "sqrt"),
+                0 => (format!("sqrt(abs({}))", q), m.sqrt(), "sqrt_abs"),
+                1 => (format!("exp({} * {})", q, inv), std::f64::consts::E, "exp"),
+                2 => (format!("ln({} + {})", q, shift), top.ln(), "ln"),
+                3 => (format!("log10({} + {})", q, shift), top.log10(), "log10"),
+                4 => (format!("log2({} + {})", q, shift), top.log2(), "log2"),
+                5 => (format!("log({} + {})", q, shift), top.log10(), "log"),
+                6 => (format!("log(2, {} + {})", q, shift), top.log2(), "log_base"),
+                7 => (format!("pow({}, 2)", q), m * m, "pow2"),
+                8 if m <= 1.0e4 => (format!("power({}, 3)", q), m * m * m, "pow3"),
+                9 => (format!("sign({})", q), 1.0, "sign"),
+                10 => (format!("{} - {}", q, if is_int { format!("{}", ((lo + hi) / 2.0).floor() as i64) } else { format!("{:?}", ((lo + hi) / 2.0 * 8.0).round() / 8.0 + 0.0625) }), 2.0 * m + 1.0, "minus_lit"),
+                11 => (format!("{} * -0.5", q), m, "times_neg"),
+                12 | 13 => match other {
+                    Some((q2, c2)) => {
+                        let r2 = range_of(c2).unwrap();
+                        let m2 = r2.0.abs().max(r2.1.abs()).max(1.0);
+                        if rme.chance(0.5) {
+                            (format!("{} * {}", q, q2), m * m2, "product")
+                        } else {
+                            (format!("{} - {}", q, q2), m + m2, "difference")
+                        }
+                    }
+                    None => continue,
+                },
+                _ => continue,
+            };
+            a.arg = expr;
+            a.scale = scale.max(1.0);
+            used.push(name);
+        }
+        if !used.is_empty() {
+            used.sort();
+            used.dedup();
+            tags.push(format!("math:{}", used.join("+")));
         }
     }
     // one WHERE conjunct on the base table moved into a derived table around it (own stream): two
